@@ -46,8 +46,18 @@ ASSUMPTIONS = [
     "an ack carries nothing that ties it to one request beyond the five echoed bytes: one that arrives after the caller "
     "gave up (connection still open) stays queued and serves the next write with the same first five bytes; after the ack "
     "timeout the connection is closed and a late ack serves nothing (`hsfz_write_outcomes`, example below it)",
-    "the whole-execution write theorem covers continuations of gateway bytes and passing time (what can happen while the "
+    "the whole-execution write theorems cover continuations of gateway bytes and passing time (what can happen while the "
     "one client task is blocked); the end of the stream while blocked is C08's subject (`hsfz_eof_wakes_ack_wait`)",
+    "whole executions (Model/HsfzSys.lean): write / read / close before connect() have no object to be called on, close() "
+    "while the one client task is blocked in a call cannot be issued by it - both leave the model state alone and are "
+    "skipped on the implementation side; bytes / end of stream before connect() are what an accepted TCP connection may "
+    "deliver before the reader task runs (StreamReader buffer); feed after end-of-stream is not generated",
+    "the reader task's trace on the implementation side is recorded by wrappers around HSFZConnection._read_frame and "
+    "send_alive_msg (what _read_frame returned, that send_alive_msg was entered, IncompleteReadError)",
+    "frames of other address pairs and stale acks skipped by a read() that then ends by an exception (timeout, error word, "
+    "end of stream) are dropped by the code (local list) - modelled as the code does it, not part of the property "
+    "(the property protects frames skipped by the ack wait); `hsfz_foreign_preserved` / `hsfz_acks_used_once` are therefore "
+    "not stated as whole-execution theorems (the ack side is covered by `hsfz_write_outcomes_sys`: first matching ack decides)",
 ]
 
 SRC, DST = 0xF4, 0x10
@@ -1435,6 +1445,16 @@ MANIFEST = {
                    "instant, else exactly at the deadline (caller's TimeoutError, or 'no ack' with the connection closed for good), "
                    "else it is still blocked holding everything seen -, alive checks are answered by the reader task in the "
                    "step that parses them, an error control word closes the connection, skipped frames stay queued in arrival order. "
+                   "Whole executions from before connect() to after close() (`Model/HsfzSys.lean`: events feed / connect / write / read / "
+                   "close / eof / advance, reader-task trace, ack timeout from the URI; the connection inside moves only by the "
+                   "operations of Model/Hsfz.lean and by close() on an idle client, so its invariants lift): for EVERY event list and "
+                   "schedule `hsfz_reads_account` (delivered ++ still on their way = the stream's ECU->tester payloads in order), "
+                   "`hsfz_write_outcomes_sys` (first deciding item among queued + arriving before the deadline, else failure exactly at "
+                   "the ack deadline of the URI / the caller's earlier timeout, any events afterwards), `hsfz_short_frames_consumed` "
+                   "(frames handled by the reader task ++ complete in the buffer = the stream's frames, all handled on an open "
+                   "connection), `hsfz_alive_always_answered_partial` (every alive check in the reader's trace followed by its reply; "
+                   "reply bytes / instant / independence of the client phase per step), `hsfz_closed_never_blocks`, "
+                   "`hsfz_error_word_closes_partial` (closed is final, later calls fail at once). "
                    "Tied to the code by tables regenerated from hsfz.py (enum, struct formats, literals, match arms) with agreement "
                    "theorems, and by a differential run of the real HSFZTransport/HSFZConnection over in-memory streams under virtual "
                    "time: all frame sequences up to length 4 (quick) / 5 (thorough) over an 8-symbol gateway alphabet x 6 injection "
@@ -1442,12 +1462,23 @@ MANIFEST = {
                    "{0.1, 1.0, 2.5 s} x arrival before/after the deadline x caller timeouts, two writes one after the other with "
                    "all sequences up to length 2 in every placement into the 5 phases, acks around both kinds of deadline followed by "
                    "the next write, bursts of 33-80 unconsumed frames with alive checks behind them, frames then end of stream then "
-                   "reads, seeded longer sequences over a 27-symbol alphabet with multi-splits and free-form conversations; the property's clauses are also evaluated directly on the implementation's traces."),
-    "level_note": ("Partial: one client operation at a time (no concurrent read+write tasks); kernel TCP behaviour, real drain() "
+                   "reads, seeded longer sequences over a 27-symbol alphabet with multi-splits and free-form conversations; whole executions "
+                   "against the HsfzSys driver commands compared event by event (connected flag, bytes waiting for the reader task, "
+                   "reader trace, closed flag, clock, pending call, queue, bytes written with times, call results with times): all "
+                   "client programs of 2-3 (4 thorough) calls over {write, write with short caller timeout, read, close} x every core "
+                   "frame in every phase (also before connect()), 2-call programs x all 2-frame sequences x placements, 9 further "
+                   "control words / short frames at every phase, frames then EOF (before / after connect()) then calls, acks around "
+                   "both deadlines then further writes / close, bursts of 40-70 frames with an alive check in every client phase, "
+                   "seeded event lists; the property's clauses (incl. reader trace = stream frames, alive reply after every alive "
+                   "check, calls on a closed connection fail at once) are also evaluated directly on the implementation's traces."),
+    "level_note": ("Partial: `hsfz_acks_used_once` and `hsfz_foreign_preserved` are not proved as whole-execution theorems (a read that ends by "
+                   "an exception drops the foreign frames it skipped - code behaviour outside the property); the alive-check and "
+                   "error-word whole-execution theorems are `_partial` (trace level / closed-is-final; the byte-level and per-call links "
+                   "are per-step theorems). One client operation at a time (no concurrent read+write tasks); kernel TCP behaviour, real drain() "
                    "back-pressure and wall-clock latency are represented by feed_data chunking, two drain schedules and virtual time; "
                    "'immediately' for the alive check means 'in the reader-task step that parsed the frame, without waiting for the "
                    "client or a lock'. Trusted: Lean kernel (propext, Quot.sound, Classical.choice), asyncio Queue/StreamReader/wait_for "
                    "contracts, struct, the harness."),
-    "technique": "Lean 4 proof (generic framing lemma, induction over the settle schedule) + regenerated tables + differential correspondence under virtual time",
+    "technique": "Lean 4 proof (generic framing lemma, induction over the settle schedule, invariants lifted to the connect..close system) + regenerated tables + differential correspondence under virtual time",
     "design_ref": "DESIGN.md section 7, C07",
 }
